@@ -244,7 +244,11 @@ class AppHost:
                 raise RuntimeError(f"unknown program step {op}")
 
     async def _pause(self, spec: Any) -> None:
-        kind, amount = spec
+        kind, amount = spec[0], spec[1]
+        # a pause repeated per message stops after 60 repetitions so that long bodies stay cheap
+        self._pauses = getattr(self, "_pauses", 0) + 1
+        if self._pauses > 60 * max(1, len(self.instances)):
+            return
         if kind == "yield":
             for _ in range(amount):
                 await self._sleep(0)
